@@ -232,6 +232,17 @@ def _case(spec, ctx):
             ctx.fail("mahalanobis:not-flattened-transform", f"{d.tolist()} vs {t1.reshape(-1).tolist()}", spec)
         if not same_params(snap, snapshot(ad)):
             ctx.fail("params-changed:mahalanobis", "", spec)
+        if not (np.sum(t1) > 0 and np.all(np.isfinite(t1))):
+            # every innovation exactly zero: the documented variance term (1/sum + sum)/2 is infinite and FormaK says so with
+            # a ValueError; the score is not defined for such data (found by the thorough tier, DESIGN 10 item 26)
+            try:
+                ad.score(X)
+                ctx.event("score:degenerate-data:returned")
+            except Exception:
+                ctx.event("score:degenerate-data:refused")
+            if not same_params(snap, snapshot(ad)):
+                ctx.fail("params-changed:score", "", spec)
+            return
         with ctx.formak("score", spec):
             total, parts = ad.score(X, explain_score=True)
             plain = ad.score(X)
